@@ -463,20 +463,21 @@ func (a *IPAllocator) UnmarshalJSON(data []byte) error {
 		return err
 	}
 
-	// Restore bitmap
-	bitmap := new(big.Int)
-	bitmap.SetString(state.Bitmap, 16)
-	alloc.bitmap = bitmap
-
-	// Restore allocations and rebuild reverse lookup
-	alloc.allocated = state.Allocated
-	alloc.indexToSubscriber = make(map[uint64]string)
+	// Restore allocations. The bitmap, the reverse lookup and the count are
+	// rebuilt from the allocation map (the single source of truth) so that they
+	// always agree; the persisted bitmap is not trusted.
 	for subID, idx := range state.Allocated {
+		if new(big.Int).SetUint64(idx).Cmp(alloc.totalPrefixes) >= 0 {
+			return fmt.Errorf("%w: index %d of %s", ErrOutOfRange, idx, subID)
+		}
+		if other, taken := alloc.indexToSubscriber[idx]; taken {
+			return fmt.Errorf("%w: index %d recorded for both %s and %s", ErrAlreadyAllocated, idx, other, subID)
+		}
+		alloc.bitmap.SetBit(alloc.bitmap, int(idx), 1)
+		alloc.allocatedCount.Add(alloc.allocatedCount, big.NewInt(1))
+		alloc.allocated[subID] = idx
 		alloc.indexToSubscriber[idx] = subID
 	}
-
-	// Recalculate allocated count
-	alloc.allocatedCount = big.NewInt(int64(len(state.Allocated)))
 
 	// Copy fields individually to avoid copying the embedded sync.RWMutex.
 	a.baseIP = alloc.baseIP
